@@ -357,22 +357,32 @@ def gen_wire_maps():
     found, why = syntactic_dispatches(src, "fn try_new", families, lazy, "aw_map.rs", after="impl TpcWirePosition {")
 
     # match mapped_channel { lo..=hi => preamp_k * M + mapped_channel | preamp_k * M + (mapped_channel - S), _ => unreachable!() }
-    arms = match_arms(src, marker, "mapped_channel", 0)
-    rows, pos_rows = [], []
-    for i, (p, b) in enumerate(arms):
-        b = norm(b)
-        if p == "_":
-            if b != "unreachable!()" or i != len(arms) - 1:
-                raise GenError("aw_map.rs: unknown default arm of `match mapped_channel`: %r" % b)
-            continue
-        m = re.fullmatch(r"(\d+)\s*\.\.=\s*(\d+)", p)
-        mb = re.fullmatch(r"preamp_([12]) \* (\d+) \+ (?:mapped_channel|\(mapped_channel - (\d+)\))", b)
-        if not m or not mb:
-            raise GenError("aw_map.rs: unknown arm of `match mapped_channel`: %r => %r" % (p, b))
-        rows.append("(%s, %s, (%s, %s, %s))" % (m.group(1), m.group(2), mb.group(1), mb.group(2), mb.group(3) or "0"))
-        pos_rows.append((int(m.group(1)), int(m.group(2)), (int(mb.group(1)), int(mb.group(2)), int(mb.group(3) or "0"))))
-    if not re.search(r"let\s+mapped_channel\s*=\s*channel_map\s*\[\s*usize::from\(channel_id\.0\)\s*\]\s*;", src):
-        raise GenError("aw_map.rs: unknown shape of the channel lookup")
+    wire_pos_note = ""
+    try:
+        arms = match_arms(src, marker, "mapped_channel", 0)
+        rows, pos_rows = [], []
+        for i, (p, b) in enumerate(arms):
+            b = norm(b)
+            if p == "_":
+                if b != "unreachable!()" or i != len(arms) - 1:
+                    raise GenError("aw_map.rs: unknown default arm of `match mapped_channel`: %r" % b)
+                continue
+            m = re.fullmatch(r"(\d+)\s*\.\.=\s*(\d+)", p)
+            mb = re.fullmatch(r"preamp_([12]) \* (\d+) \+ (?:mapped_channel|\(mapped_channel - (\d+)\))", b)
+            if not m or not mb:
+                raise GenError("aw_map.rs: unknown arm of `match mapped_channel`: %r => %r" % (p, b))
+            rows.append("(%s, %s, (%s, %s, %s))" % (m.group(1), m.group(2), mb.group(1), mb.group(2), mb.group(3) or "0"))
+            pos_rows.append((int(m.group(1)), int(m.group(2)), (int(mb.group(1)), int(mb.group(2)), int(mb.group(3) or "0"))))
+        if not re.search(r"let\s+mapped_channel\s*=\s*channel_map\s*\[\s*usize::from\(channel_id\.0\)\s*\]\s*;", src):
+            raise GenError("aw_map.rs: unknown shape of the channel lookup")
+    except (GenError, IndexError, ValueError) as e:
+        # the wire-index arithmetic could not be read: keep the arithmetic the model implements (2 preamps of 16 wires) and
+        # have it VERIFIED against the implementation's complete wire table at every candidate run number below
+        rows = ["(0, 15, (1, 16, 0))", "(16, 31, (2, 16, 16))"]
+        pos_rows = [(0, 15, (1, 16, 0)), (16, 31, (2, 16, 16))]
+        helper_ok = False
+        wire_pos_note = ("(* wire-index arithmetic verified against the implementation by probing (the source could not be read: %s) *)\n"
+                         % str(e).replace("*)", "* )")[:160])
 
     notes = []
     if len(found) < 2 or not helper_ok:
@@ -390,6 +400,7 @@ def gen_wire_maps():
     t += "Definition preamp_arms : list (rpat * option N) :=\n  %s.\n" % dx.coq_arms(found["preamp"])
     t += "(* second `match run_number` (channel map) *)\n"
     t += "Definition channel_arms : list (rpat * option N) :=\n  %s.\n\n" % dx.coq_arms(found["channel"])
+    t += wire_pos_note
     t += "(* `match mapped_channel`: (lo, hi, (which preamp, multiplier, subtracted)) ; `_ => unreachable!()` *)\n"
     t += "Definition wire_pos_arms : list (N * N * (N * N * N)) := [%s].\n\n" % "; ".join(rows)
 
